@@ -19,7 +19,7 @@ RULE = ("all histories up to the tier's length over the event alphabet {accepted
         "parse or a context switch")
 EXHAUSTIVE = {"quick": True, "thorough": True}
 
-SCHEMA = [Opt("i", "int", 0, 1), Opt("s", "str", 0, b"d"), Opt("l", "int", LIST, [b"1"]), Opt("sec", "sec", 0, None, "-", [Opt("x", "int", 0, 0)]),
+SCHEMA = [Opt("i", "int", 0, 1), Opt("f", "float", 0, 0.25), Opt("s", "str", 0, b"d"), Opt("l", "int", LIST, [b"1"]), Opt("sec", "sec", 0, None, "-", [Opt("x", "int", 0, 0), Opt("hook", "func", 0, None, "U")]),
           Opt("m", "sec", MULTI | TITLE, None, "-", [Opt("y", "str", 0, None)]), Opt("include", "func", 0, None, "I"),
           Opt("hook", "func", 0, None, "U")]
 
@@ -36,12 +36,13 @@ EVENTS = {
     "inc_dq_inside": [b'include("dq.conf")\n'],
     "inc_depth": [b'include("self.conf")\n'],
     "range": [b"i = 99999999999999999999\n"],
+    "frange": [b"f = 1e999\n"],
     "in_section": [b"sec { x = 1\n"],
     "in_list": [b"l = { 1, 2\n"],
     "dq_then_more": [b's = "one\n', b'two"\n'],
 }
 PROBES = [b"i = 5\n", b's = "str"\n', b"s = 'sq'\n", b"/* c */ i = 6\n", b"l = {7, 8}\n", b"sec { x = 9 }\n", b'm "t" { y = v }\n',
-          b'include("good.conf")\n', b"i = x\n", b'"\n', b"*/ i = 7\n", b"'\n"]
+          b'include("good.conf")\n', b"i = x\n", b'"\n', b"*/ i = 7\n", b"'\n", b"f = 1.5\n", b"f = 2.5 i = 0x10\n"]
 FILES = [("bad.conf", b"i = 1\n= broken\n"), ("dq.conf", b's = "open\n'), ("self.conf", b'include("self.conf")\n'), ("good.conf", b"i = 77\n")]
 
 
@@ -82,9 +83,13 @@ def generate(rng, tier):
     # a second context used *while* a parse of the first is running: a function callback (top level, inside a section,
     # inside an included file, two include levels down) parses a text into context 1; context 0's outcome must be what
     # the model - which knows nothing of the nested parse - predicts, i.e. what it is without it
-    nest_texts = [b"i = 5\n", b"i = 5\ninclude(\"good.conf\")\n", b's = "open\n', b"i = x\n", b'include("bad.conf")\n', b"sec { x = 4 }\n"]
+    # (a range failure in the nested parse leaves errno = ERANGE behind while the outer text is already buffered: the
+    # next numeral of the outer text - float or integer - must not care)
+    nest_texts = [b"i = 5\n", b"i = 5\ninclude(\"good.conf\")\n", b's = "open\n', b"i = x\n", b'include("bad.conf")\n', b"sec { x = 4 }\n",
+                  b"i = 99999999999999999999\n", b"f = 1e999\n"]
     hosts = [b'i = 1\nhook("%s")\ni = 2\nl = {7, 8}\n', b'i = 1\ninclude("n1.conf")\ns = after\n',
-             b'sec { x = 1 }\ninclude("n2.conf")\ns = after\nl += {3}\n', b'hook("%s") hook("%s")\ns = z\n']
+             b'sec { x = 1 }\ninclude("n2.conf")\ns = after\nl += {3}\n', b'hook("%s") hook("%s")\ns = z\n',
+             b'hook("%s")\nf = 1.5\ni = 3\n', b'hook("%s")\ni = 0x7fffffffffffffff\nf = 2.5\n', b'sec { hook("%s") x = 9223372036854775807 }\nf = 3.5\n']
     for host in hosts:
         for nt in nest_texts:
             arg = (b"nest:" + nt).replace(b"\\", b"\\\\").replace(b'"', b'\\"').replace(b"\n", b"\\n")
